@@ -4,7 +4,7 @@ import z3
 
 from pyvc import extmodels
 from pyvc.sym import V, Py, is_py, NONE, Unsupported, mk_int, mk_bool, fresh, fresh_name, truthy
-from pyvc.types import TInt, TBool, TStr, TOpt, TAny, TRef
+from pyvc.types import TInt, TBool, TStr, TOpt, TAny, TRef, TBytes
 
 EXTERNS = {}
 EXTERNS.update(extmodels.MISC)
@@ -29,13 +29,41 @@ def sb_matches(eng, pat, text):
     return mk_bool(f(pat.z, text.z))
 
 
+def _ghost_append(eng, name, ref):
+    from pyvc import lists as L
+    g = eng.st.ghost.get(name)
+    if g is not None:
+        eng.st.ghost[name] = V(g.t, L.l_append(g.t, g.z, ref.z))
+
+
 def glib_idle_add(eng, args, kwargs):
-    '''Schedules a callable for a later event-loop iteration: nothing runs now.  The (callable, argument)
-    pair is recorded in the ghost list `scheduled` when that ghost exists.'''
+    '''Schedules a callable for a later event-loop iteration: nothing runs now.  A bundle container scheduled
+    for Agent.send_bundle / Agent.recv_bundle is recorded in the ghost lists sched_send / sched_recv.'''
+    fv = args[0]
+    if len(args) > 1 and isinstance(args[1].t, TOpt) and isinstance(args[1].t.inner, TRef):
+        # (a value known to be not None at this point of the code: `if status:`)
+        args = [args[0], V(args[1].t.inner, args[1].t.val(args[1].z))] + list(args[2:])
+    if is_py(fv, 'bound') and len(args) > 1 and isinstance(args[1].t, TRef) and args[1].t.cls == 'Ctr':
+        name = fv.py[3].name
+        if name == 'send_bundle':
+            _ghost_append(eng, 'sched_send', args[1])
+        elif name == 'recv_bundle':
+            _ghost_append(eng, 'sched_recv', args[1])
     return mk_int(z3.Int(fresh_name('srcid')))
 
 
+def dt_timedelta(eng, args, kwargs):
+    return fresh(TAny('timedelta'), 'td')
+
+
+def td_total_seconds(eng, args, kwargs):
+    from pyvc.types import TFloat
+    return V(TFloat, z3.Const(fresh_name('flt'), TFloat.sort()))
+
+
 EXTERNS.update({
+    'datetime.timedelta': dt_timedelta,
+    'timedelta.total_seconds': td_total_seconds,
     'pattern.match': pattern_match,
     'gi.repository.GLib.idle_add': glib_idle_add,
 })
@@ -49,14 +77,57 @@ def cb_callback(eng, fv, args):
     touch the agent's seen-identity set, forwarding queue or routing tables.'''
     if args and isinstance(args[0].t, TRef) and args[0].t.cls == 'Ctr':
         ctr = args[0]
-        for fn in ('actions', 'status_reason', 'route', 'sender'):
+        # (assumed) the steps of the transmit chain choose route / sender or take the bundle over; they do not
+        # record actions on it -- only receive-chain steps do (deliver / forward / delete decisions)
+        tx_chain = eng.frame is not None and eng.frame.name == 'send_bundle'
+        for fn in (('route', 'sender') if tx_chain else ('actions', 'status_reason', 'route', 'sender')):
             f = eng.spec.field('Ctr', fn)
             eng.write_heap(ctr, (f[0], fn), f[1], fresh(f[1], 'step_' + fn))
         if eng.branch(z3.Bool(fresh_name('step_raises'))):
+            gf = eng.st.ghost.get('step_failed')
+            if gf is not None:
+                eng.st.ghost['step_failed'] = V(gf.t, z3.BoolVal(True))
             eng.py_raise('Exception')
-        return fresh(TOpt(TBool), 'step_result')
-    # other callables (senders, on_stop): no effect on the verified state
+        res = fresh(TOpt(TBool), 'step_result')
+        # a step that interrupts the chain (returns a true value) may have taken over the bundle: the
+        # fragmentation step of bp.app.fragment does exactly this (route and sender cleared, the fragments
+        # scheduled for Agent.send_bundle); recorded in ghost.consumed
+        g = eng.st.ghost.get('consumed')
+        if g is not None:
+            fsn = eng.spec.field('Ctr', 'sender')
+            snd = z3.Select(eng.heap_arr((fsn[0], 'sender'), fsn[1]), ctr.z)
+            # (assumed) interrupting the chain and leaving no sender means: this step took the bundle over
+            frt = eng.spec.field('Ctr', 'route')
+            rte = z3.Select(eng.heap_arr((frt[0], 'route'), frt[1]), ctr.z)
+            took = z3.And(truthy(res), fsn[1].is_none(snd), frt[1].is_none(rte))
+            eng.st.ghost['consumed'] = V(g.t, z3.If(took, z3.Store(g.z, ctr.z, True), g.z))
+            gs = eng.st.ghost.get('sched_send')
+            if gs is not None:
+                # fragments scheduled: some unknown longer list with the old one as prefix (only when consuming)
+                more = fresh(gs.t, 'sched_more')
+                from pyvc import lists as L
+                eng.assume(L.canon(gs.t, more.z))
+                eng.st.ghost['sched_send'] = V(gs.t, z3.If(took, L.l_concat(gs.t, gs.z, more.z), gs.z))
+        return res
+    if args and args[0].t is TBytes:
+        # a convergence-layer sender handed the encoded bundle: no effect on the verified state, may raise
+        if eng.branch(z3.Bool(fresh_name('sender_raises'))):
+            eng.py_raise('Exception')
+        return NONE
+    # other callables (on_stop ...): no effect on the verified state
     return NONE
+
+
+def cb_pkt_bytes(eng, v):
+    '''bytes(packet) for the mutable BP packets: an unspecified octet string (the encoders are scapy_cbor / cbor2);
+    encoding a whole Bundle additionally records whether its CRC fields were up to date (ghost.wire_crc_ok).'''
+    from pyvc.types import TBytes as _B
+    if v.t.layers and v.t.layers[0] == 'Bundle':
+        g = eng.st.ghost.get('wire_crc_ok')
+        ok = eng.st.ghost.get('crc_ok')
+        if g is not None and ok is not None:
+            eng.st.ghost['wire_crc_ok'] = V(g.t, z3.And(g.z, z3.Select(ok.z, v.z)))
+    return fresh(_B, 'enc')
 
 
 def _rd(eng, ref, schema, field):
@@ -93,5 +164,5 @@ def sb_crc_all_valid(eng, bundle):
     return mk_bool(f(bundle.z))
 
 
-CALLBACKS = {'callback': cb_callback}
+CALLBACKS = {'callback': cb_callback, 'pkt_bytes': cb_pkt_bytes}
 SPECBUILTINS = {'matches': sb_matches, 'ident_of': sb_ident_of, 'crc_all_valid': sb_crc_all_valid}
